@@ -419,6 +419,9 @@ pub struct Stats {
     pub labels: BTreeMap<String, u64>,
     pub families: BTreeMap<String, FamilyStats>,
     pub samples: Vec<Value>,
+    /// Fallback sample of a trivial case, used only when no non-trivial sample exists anywhere.
+    #[serde(default)]
+    pub trivial_sample: Option<Value>,
     pub known: BTreeMap<String, u64>,
     pub notes: Vec<String>,
     pub known_lines: BTreeSet<String>,
@@ -444,6 +447,9 @@ impl Stats {
             e.wall_ms = e.wall_ms.max(v.wall_ms);
         }
         self.samples.extend(other.samples);
+        if self.trivial_sample.is_none() {
+            self.trivial_sample = other.trivial_sample;
+        }
         for (k, v) in other.known {
             *self.known.entry(k).or_default() += v;
         }
@@ -694,8 +700,12 @@ impl ShardCtx {
             *self.stats.known.entry(k).or_default() += 1;
         }
         if let Some(s) = cx.sample {
+            // Non-trivial cases are preferred; a shard that has no sample at all yet keeps a trivial
+            // one (marked) so that an evidence record never ends up without samples.
             if cx.nontrivial && self.stats.samples.len() < MAX_SAMPLES_PER_SHARD {
                 self.stats.samples.push(json!({"family": family, "case": s}));
+            } else if !cx.nontrivial && self.stats.samples.is_empty() && self.stats.trivial_sample.is_none() {
+                self.stats.trivial_sample = Some(json!({"family": family, "case": s, "trivial": true}));
             }
         }
     }
@@ -1650,6 +1660,19 @@ pub fn supervise(check: &'static dyn Check, tier: Tier) -> i32 {
     let wall = t0.elapsed().as_secs_f64();
     let distinct = stats.nontrivial_keys.len() as u64 + stats.nontrivial_enumerated;
     let all_exhaustive = !stats.families.is_empty() && stats.families.values().all(|f| f.exhaustive);
+    // An evidence record always carries at least one sample: non-trivial passing cases first, else
+    // the inputs of the violations found (a run that stops at its first failure may not have
+    // sampled anything yet), else a trivial case.
+    if stats.samples.is_empty() {
+        for v in real.iter().take(3) {
+            stats.samples.push(json!({"family": v.family, "case": v.rendered, "violating": true, "class": v.class}));
+        }
+    }
+    if stats.samples.is_empty() {
+        if let Some(t) = stats.trivial_sample.take() {
+            stats.samples.push(t);
+        }
+    }
     let mut coverage = json!({
         "evaluations": stats.evaluations,
         "distinct_nontrivial": distinct,
@@ -1677,7 +1700,11 @@ pub fn supervise(check: &'static dyn Check, tier: Tier) -> i32 {
         "wall_s": (wall * 1000.0).round() / 1000.0,
         "violations": real.len(),
     });
-    let ev_dir = PathBuf::from(format!("{VERIF_ROOT}/evidence"));
+    // Mutant/seed trials set VCHECK_EVIDENCE_DIR so that the committed evidence (runs against
+    // /repo itself) is never overwritten by a run against a deliberately broken tree.
+    let ev_dir = std::env::var_os("VCHECK_EVIDENCE_DIR")
+        .map(PathBuf::from)
+        .unwrap_or_else(|| PathBuf::from(format!("{VERIF_ROOT}/evidence")));
     let _ = std::fs::create_dir_all(&ev_dir);
     let ev_path = ev_dir.join(format!("{prop}.json"));
     std::fs::write(&ev_path, serde_json::to_string_pretty(&evidence).unwrap() + "\n").expect("write evidence");
